@@ -12,8 +12,14 @@
 //	race   (-race build, started by the driver with VERIF_RACE=1) the same workload
 //	       is run in a child process of this test binary with its own GORACE log;
 //	       the parent compares plans as above and turns every race report that has a
-//	       Gaea frame into a violation, or into known finding C07-F1 when the racing
-//	       write is the assignment in (*Router).GetRule.
+//	       Gaea frame into a violation (C07-F1, the write in (*Router).GetRule, is
+//	       fixed in /repo; its witness is kept as a regression case).
+//
+// In both sub-checks "alone" means: on a router nothing else has used. After the
+// concurrent phase every statement is planned alone once more on the shared
+// router and must still give that plan, and the router's observable routing table
+// (every rule: indexes, slices, database per index, first/last index, mycat
+// database map, placement of fixed keys) must be what it was before the workload.
 package c07
 
 import (
@@ -37,6 +43,19 @@ import (
 // ---- generator ----
 
 var shardTables = []string{"t_hash", "t_mod", "t_range"}
+
+// judgeRun turns the result of a workload into a violation text (empty: none).
+func judgeRun(res runResult) string {
+	switch {
+	case len(res.Mismatches) > 0:
+		return fmt.Sprintf("%d statement(s) planned differently under concurrency; first: %s", len(res.Mismatches), res.Mismatches[0])
+	case res.TableDiff != "":
+		return "planning changed the routing table shared between sessions:\n" + res.TableDiff
+	case len(res.After) > 0:
+		return fmt.Sprintf("%d statement(s) are planned differently after the workload than on an untouched router (shared routing state was changed by planning); first: %s", len(res.After), res.After[0])
+	}
+	return ""
+}
 
 func genKey(t *rapid.T, name string) int {
 	return rapid.IntRange(0, 399).Draw(t, name)
@@ -70,7 +89,15 @@ func genOp(t *rapid.T, db string) op {
 		tdb, table := plainTable()
 		ref := qualify(tdb, table)
 		o.Class, o.RuleDB = "default", tdb
-		switch rapid.IntRange(0, 5).Draw(t, "form") {
+		switch rapid.IntRange(0, 9).Draw(t, "form") {
+		case 6:
+			o.SQL = rapid.SampledFrom([]string{"SELECT last_insert_id()", "select last_insert_id() as id", "SELECT LAST_INSERT_ID ( )"}).Draw(t, "lid")
+		case 7:
+			o.SQL = fmt.Sprintf("/*master*/ SELECT * FROM %s WHERE id = %d", ref, k)
+		case 8:
+			o.SQL = fmt.Sprintf("SELECT * FROM %s WHERE id > %d LIMIT 2, 5", ref, k)
+		case 9:
+			o.SQL = fmt.Sprintf("EXPLAIN UPDATE %s SET v = 'y' WHERE id = %d", ref, k)
 		case 0:
 			o.SQL = fmt.Sprintf("SELECT * FROM %s WHERE id = %d", ref, k)
 		case 1:
@@ -100,11 +127,11 @@ func genOp(t *rapid.T, db string) op {
 				o.Table = dbShard + "." + o.Table
 			}
 		}
-	case kind <= 15: // sharded table
+	case kind <= 13: // sharded table
 		table := rapid.SampledFrom(shardTables).Draw(t, "st")
 		ref := qualify(dbShard, table)
 		o.Class = "shard"
-		switch rapid.IntRange(0, 8).Draw(t, "form") {
+		switch rapid.IntRange(0, 24).Draw(t, "form") {
 		case 0:
 			o.SQL = fmt.Sprintf("SELECT * FROM %s WHERE id = %d", ref, k)
 		case 1:
@@ -121,16 +148,86 @@ func genOp(t *rapid.T, db string) op {
 			o.SQL = fmt.Sprintf("DELETE FROM %s WHERE id = %d", ref, k)
 		case 7:
 			o.SQL = fmt.Sprintf("EXPLAIN SELECT * FROM %s WHERE id = %d", ref, k)
-		default:
+		case 8:
 			o.SQL = fmt.Sprintf("SELECT * FROM %s a JOIN %s c ON a.id = c.pid WHERE a.id = %d", qualify(dbShard, "t_hash"), qualify(dbShard, "t_child"), k)
+		case 9: // LIMIT offset rewriting
+			o.SQL = fmt.Sprintf("SELECT id, v FROM %s ORDER BY id DESC LIMIT %d, 10", ref, k%50)
+		case 10: // aggregates / GROUP BY are rewritten and merged
+			o.SQL = fmt.Sprintf("SELECT v, count(*), max(id), sum(id) FROM %s WHERE id >= %d GROUP BY v ORDER BY v", ref, k)
+		case 11:
+			o.SQL = fmt.Sprintf("SELECT DISTINCT v FROM %s WHERE id BETWEEN %d AND %d", ref, k, k+genKey(t, "k2")%120)
+		case 12:
+			o.SQL = fmt.Sprintf("/*master*/ SELECT * FROM %s WHERE id = %d", ref, k)
+		case 13:
+			o.SQL = fmt.Sprintf("SELECT /*+ MAX_EXECUTION_TIME(1000) */ * FROM %s WHERE id < %d", ref, k)
+		case 14:
+			o.SQL = fmt.Sprintf("INSERT INTO %s (id, v) VALUES (%d, 'a'), (%d, 'b'), (%d, 'c')", ref, k, genKey(t, "k2"), genKey(t, "k3"))
+		case 15:
+			o.SQL = fmt.Sprintf("INSERT INTO %s (id, v) VALUES (%d, 'a') ON DUPLICATE KEY UPDATE v = 'b'", ref, k)
+		case 16:
+			o.SQL = fmt.Sprintf("REPLACE INTO %s (id, v) VALUES (%d, 'r')", ref, k)
+		case 17:
+			o.SQL = fmt.Sprintf("INSERT INTO %s SET id = %d, v = 's'", ref, k)
+		case 18:
+			o.SQL = fmt.Sprintf("UPDATE %s SET v = 'y' WHERE id IN (%d, %d) AND v <> 'q'", ref, k, genKey(t, "k2"))
+		case 19:
+			o.SQL = fmt.Sprintf("DELETE FROM %s WHERE v = 'gone'", ref)
+		case 20:
+			o.SQL = fmt.Sprintf("EXPLAIN UPDATE %s SET v = 'y' WHERE id = %d", ref, k)
+		case 21:
+			o.SQL = fmt.Sprintf("EXPLAIN INSERT INTO %s (id, v) VALUES (%d, 'x')", ref, k)
+		case 22:
+			o.SQL = fmt.Sprintf("SELECT id FROM %s WHERE id = %d UNION SELECT id FROM %s WHERE id = %d", ref, k, qualify(dbShard, "t_mod"), genKey(t, "k2"))
+		case 23:
+			o.SQL = fmt.Sprintf("SELECT * FROM %s WHERE id IN (SELECT pid FROM %s WHERE pid = %d)", qualify(dbShard, "t_hash"), qualify(dbShard, "t_child"), k)
+		default: // calendar rule
+			mref := qualify(dbShard, "t_month")
+			switch rapid.IntRange(0, 2).Draw(t, "mform") {
+			case 0:
+				o.SQL = fmt.Sprintf("SELECT * FROM %s WHERE d = '2020-0%d-15'", mref, 1+k%6)
+			case 1:
+				o.SQL = fmt.Sprintf("SELECT * FROM %s WHERE d >= '2020-0%d-01'", mref, 1+k%6)
+			default:
+				o.SQL = fmt.Sprintf("INSERT INTO %s (id, d) VALUES (%d, '2020-0%d-20')", mref, k, 1+k%6)
+			}
 		}
-	case kind <= 16: // mycat-style table
-		ref := qualify(dbMycat, "t_mm")
+	case kind <= 16: // mycat-style tables, including the DATABASE() restriction of the mycat compatibility
+		table := rapid.SampledFrom([]string{"t_mm", "t_ml"}).Draw(t, "mt")
+		ref := qualify(dbMycat, table)
 		o.Class = "shard"
-		if rapid.Bool().Draw(t, "mm_w") {
+		hdb := fmt.Sprintf("db_m_%d", rapid.IntRange(0, 3).Draw(t, "hdb")) // first and non-first databases
+		switch rapid.IntRange(0, 11).Draw(t, "form") {
+		case 0:
 			o.SQL = fmt.Sprintf("INSERT INTO %s (id, v) VALUES (%d, 'x')", ref, k)
-		} else {
+		case 1:
 			o.SQL = fmt.Sprintf("SELECT * FROM %s WHERE id = %d", ref, k)
+		case 2:
+			o.SQL = fmt.Sprintf("SELECT * FROM %s", ref) // broadcast: shows every sub-table index of the rule
+		case 3:
+			o.SQL = fmt.Sprintf("SELECT count(*) FROM %s WHERE v = 'x'", ref)
+		case 4:
+			o.Class = "hint_database"
+			o.SQL = fmt.Sprintf("SELECT * FROM %s WHERE DATABASE() = '%s'", ref, hdb)
+		case 5:
+			o.Class = "hint_database"
+			o.SQL = fmt.Sprintf("SELECT * FROM %s WHERE DATABASE() = %s AND v = 'x'", ref, hdb)
+		case 6:
+			o.Class = "hint_database"
+			o.SQL = fmt.Sprintf("SELECT * FROM %s WHERE `%s` = DATABASE() AND id = %d", ref, hdb, k)
+		case 7:
+			o.Class = "hint_database"
+			o.SQL = fmt.Sprintf("SELECT * FROM %s WHERE '%s' = DATABASE() ORDER BY id LIMIT 3", ref, hdb)
+		case 8:
+			o.Class = "hint_database"
+			o.SQL = fmt.Sprintf("SELECT * FROM %s WHERE database() IN ('db_m_0', '%s')", ref, hdb)
+		case 9:
+			o.Class = "hint_database"
+			o.SQL = fmt.Sprintf("EXPLAIN SELECT * FROM %s WHERE DATABASE() = '%s'", ref, hdb)
+		case 10:
+			o.Class = "hint_mycat_sql" // the hint statement decides the database
+			o.SQL = fmt.Sprintf("SELECT * FROM %s /* !mycat:sql=select 1 from %s where id = %d */", ref, ref, k)
+		default:
+			o.SQL = fmt.Sprintf("UPDATE %s SET v = 'y' WHERE id IN (%d, %d)", ref, k, genKey(t, "k2"))
 		}
 	case kind <= 17: // global table
 		ref := qualify(dbShard, "t_glob")
@@ -261,9 +358,7 @@ func checkPlans(c workload) (o pbt.Outcome) {
 		o.Skip = "fixture rejected: " + res.Err
 		return
 	}
-	if len(res.Mismatches) > 0 {
-		o.Violation = fmt.Sprintf("%d statement(s) planned differently under concurrency; first: %s", len(res.Mismatches), res.Mismatches[0])
-	}
+	o.Violation = judgeRun(res)
 	return
 }
 
@@ -278,7 +373,7 @@ func fixtureOK(t *testing.T) {
 func TestC07Plans(t *testing.T) {
 	fixtureOK(t)
 	pbt.Run(t, pbt.Spec{ID: "C07", Sub: "plans", Quick: 400, Thorough: 4000,
-		Rule: "2-16 sessions with 1-8 statements each, repeated 1-30 times behind a start barrier against one router (hash/mod/range/linked/global/mycat_mod rules, three databases without rules, one plain table in the sharded database); statements: SELECT/INSERT/UPDATE/DELETE/EXPLAIN/JOIN on sharded, global, mycat and rule-less tables, qualified or not, and field-list lookups; non-trivial = two sessions resolve the default rule with different databases, or a sharded statement in one session overlaps an unsharded one in another",
+		Rule: "2-16 sessions with 1-8 statements each, repeated 1-30 times behind a start barrier against one router (hash/mod/range/month/linked/global/mycat_mod/mycat_long rules, three databases without rules, one plain table in the sharded database); statements: SELECT/INSERT/REPLACE/UPDATE/DELETE/EXPLAIN/JOIN/UNION/subquery on sharded (hash, mod, range, month), linked, global, mycat (mod, long) and rule-less tables, qualified or not, with LIMIT offset, GROUP BY/aggregates, DISTINCT, /*master*/ and optimizer hints, DATABASE()-restricted mycat selects (=, reversed, IN, quoted/bare/backquoted, every database), mycat sql hints, last_insert_id, and field-list lookups; every plan is also recomputed alone after the workload and the routing table is compared before/after; non-trivial = two sessions resolve the default rule with different databases, or a sharded statement in one session overlaps an unsharded one in another",
 		Floor: 0.5}, genWorkload, checkPlans)
 }
 
@@ -349,7 +444,8 @@ func firstGaeaFrame(a access) string {
 	return ""
 }
 
-// isGetRuleWrite: the access is a write performed by the body of (*Router).GetRule itself.
+// isGetRuleWrite: the access is a write performed by the body of (*Router).GetRule itself
+// (the shape of fixed finding C07-F1; only the parser test uses it now).
 func isGetRuleWrite(a access) bool {
 	return a.Write && len(a.Frames) > 0 && strings.HasPrefix(a.Frames[0], gaeaPkg+"proxy/router.(*Router).GetRule ")
 }
@@ -539,13 +635,12 @@ func checkRace(c workload, rec *pbt.Recorder) (o pbt.Outcome) {
 		o.Skip = "child failed: " + res.Err
 		return
 	}
-	if len(res.Mismatches) > 0 {
+	if v := judgeRun(res); v != "" {
 		restart()
-		o.Violation = fmt.Sprintf("%d statement(s) planned differently under concurrency; first: %s", len(res.Mismatches), res.Mismatches[0])
+		o.Violation = v
 		return
 	}
 	o.Labels = append(o.Labels, fmt.Sprintf("race_reports_%d", min(len(reports), 5)))
-	var knownWhat string
 	for _, r := range reports {
 		keepReport(r.Raw)
 		if len(r.Accesses) < 2 {
@@ -560,29 +655,9 @@ func checkRace(c workload, rec *pbt.Recorder) (o pbt.Outcome) {
 			fmt.Printf("C07 NOTE: race report without a Gaea frame (harness?): %s\n", summarize(r))
 			continue
 		}
-		// C07-F1: Router.GetRule assigns defaultRule.db on every lookup that misses.
-		// Keyed by the write side: the racing write is the body of (*Router).GetRule.
-		if isGetRuleWrite(a) || isGetRuleWrite(b) {
-			other := b
-			if !isGetRuleWrite(a) {
-				other = a
-			}
-			if isGetRuleWrite(other) {
-				o.Labels = append(o.Labels, "getrule_write_vs_getrule_write")
-			} else {
-				o.Labels = append(o.Labels, "getrule_write_vs_other_access")
-			}
-			if knownWhat == "" {
-				knownWhat = "unsynchronized write to shared routing state: " + summarize(r)
-			}
-			continue
-		}
 		restart()
 		o.Violation = "data race in Gaea while sessions plan concurrently: " + summarize(r)
 		return
-	}
-	if knownWhat != "" {
-		o.Known, o.KnownWhat = "C07-F1", knownWhat
 	}
 	return
 }
